@@ -99,6 +99,14 @@ let mask_of (s : sexp) : mask0 =
   | L [A "s"; a; b] -> MSlice (opt_z a, opt_z b)
   | L (A "i" :: idx) -> MIdx (List.map (fun x -> z_of_string (atom x)) idx)
   | _ -> failwith "bad mask"
+let bmask_of (s : sexp) : bool list option =
+  match s with
+  | A "none" -> None
+  | L (A "b" :: bits) -> Some (List.map (fun b -> atom b <> "0") bits)
+  | _ -> failwith "bad boolean mask"
+let cumop_of = function
+  | "sum" -> CSum | "min" -> CMin | "max" -> CMax | "count" -> CCount
+  | s -> failwith ("bad cumop " ^ s)
 let rname_of = function
   | "sum" -> Rsum | "nansum" -> Rnansum | "nansum_squares" -> Rnansum_squares
   | "max" -> Rmax | "nanmax" -> Rnanmax | "min" -> Rmin | "nanmin" -> Rnanmin
@@ -136,6 +144,70 @@ let handle (req : sexp) : sexp =
     let vl s = List.map (fun x -> rd (atom x)) (lst s) in
     let out = spec_reduce o (rop_of (atom op)) (zlist codes) (vl vals) (nat_of ng) (mask_of m) in
     L [A "ok"; L (List.map (fun (v, c) -> L [A (pr v); A (string_of_z c)]) out)]
+  | L [A "find_nth"; codes; ng; n; m] ->
+    zl (find_nth (zlist codes) (nat_of ng) (z_of_string (atom n)) (bmask_of m))
+  | L [A "nth_spec"; codes; ng; n; m] ->
+    zl (nth_spec (zlist codes) (nat_of ng) (z_of_string (atom n)) (bmask_of m))
+  | L [A "find_first_or_last_n"; codes; ng; n; m; fwd] ->
+    L (List.map zl (find_first_or_last_n (zlist codes) (nat_of ng) (nat_of n) (bmask_of m) (atom fwd <> "0")))
+  | L [A "first_n_spec"; codes; ng; n; m] -> L (List.map zl (first_n_spec (zlist codes) (nat_of ng) (nat_of n) (bmask_of m)))
+  | L [A "last_n_spec"; codes; ng; n; m] -> L (List.map zl (last_n_spec (zlist codes) (nat_of ng) (nat_of n) (bmask_of m)))
+  | L [A "cumulative"; d; op; skipna; codes; vals; ng; m] ->
+    let D (o, rd, pr) = dom_of d in
+    let vl s = List.map (fun x -> rd (atom x)) (lst s) in
+    L (List.map (fun v -> A (pr v)) (cumulative o (cumop_of (atom op)) (atom skipna <> "0") (zlist codes) (vl vals) (nat_of ng) (bmask_of m)))
+  | L [A "cum_spec"; d; op; codes; vals; m] ->
+    let D (o, rd, pr) = dom_of d in
+    let vl s = List.map (fun x -> rd (atom x)) (lst s) in
+    L (List.map (fun v -> A (pr v)) (cum_spec o (cumop_of (atom op)) (zlist codes) (vl vals) (bmask_of m)))
+  | L [A "cumsum_noskip_spec"; d; codes; vals; m] ->
+    let D (o, rd, pr) = dom_of d in
+    let vl s = List.map (fun x -> rd (atom x)) (lst s) in
+    L (List.map (fun v -> A (pr v)) (cumsum_noskip_spec o (zlist codes) (vl vals) (bmask_of m)))
+  | L [A "rolling"; d; kind; codes; vals; ng; w; mp; m] ->
+    let D (o, rd, pr) = dom_of d in
+    let vl s = List.map (fun x -> rd (atom x)) (lst s) in
+    let c = zlist codes and v = vl vals and g = nat_of ng and win = nat_of w and mk = bmask_of m in
+    let out = (match atom kind with
+        | "sum" -> rolling_sum_or_mean o c v g win (opt_z mp) mk false
+        | "mean" -> rolling_sum_or_mean o c v g win (opt_z mp) mk true
+        | "max" -> rolling_max_or_min o c v g win (opt_z mp) mk true
+        | "min" -> rolling_max_or_min o c v g win (opt_z mp) mk false
+        | "shift" -> rolling_shift_or_diff o c v g win mk true
+        | "diff" -> rolling_shift_or_diff o c v g win mk false
+        | k -> failwith ("bad rolling kind " ^ k)) in
+    L (List.map (fun v -> A (pr v)) out)
+  | L [A "window_spec"; d; kind; codes; vals; w; mp; m] ->
+    let D (o, rd, pr) = dom_of d in
+    let vl s = List.map (fun x -> rd (atom x)) (lst s) in
+    let c = zlist codes and v = vl vals and win = nat_of w and mk = bmask_of m in
+    let mpz = (match opt_z mp with Some z -> z | None -> z_of_int (int_of w)) in
+    let out = (match atom kind with
+        | "sum" -> window_spec o RSum win mpz c v mk
+        | "mean" -> window_spec o RMean win mpz c v mk
+        | "max" -> window_spec o RMax win mpz c v mk
+        | "min" -> window_spec o RMin win mpz c v mk
+        | "shift" -> shift_spec o win true c v mk
+        | "diff" -> shift_spec o win false c v mk
+        | k -> failwith ("bad rolling kind " ^ k)) in
+    L (List.map (fun v -> A (pr v)) out)
+  | L [A "ema"; codes; vals; alpha; ng; m] ->
+    let vl = List.map (fun x -> fl_of_string (atom x)) (lst vals) in
+    L (List.map (fun v -> A (string_of_fl v)) (ema_grouped (zlist codes) vl (qc_of_string (atom alpha)) (nat_of ng) (bmask_of m)))
+  | L [A "ema_spec"; codes; vals; alpha; m] ->
+    let vl = List.map (fun x -> fl_of_string (atom x)) (lst vals) in
+    L (List.map (fun v -> A (string_of_fl v)) (ema_spec (zlist codes) vl (qc_of_string (atom alpha)) (bmask_of m)))
+  | L [A "ema_timed"; codes; vals; times; hl; ng; m] ->
+    let vl = List.map (fun x -> fl_of_string (atom x)) (lst vals) in
+    L (List.map (fun v -> A (string_of_fl v))
+         (ema_grouped_timed (decay_halflives (z_of_string (atom hl))) (zlist codes) vl (zlist times) (nat_of ng) (bmask_of m)))
+  | L [A "ema_timed_spec"; codes; vals; times; hl; m] ->
+    let vl = List.map (fun x -> fl_of_string (atom x)) (lst vals) in
+    L (List.map (fun v -> A (string_of_fl v))
+         (ema_timed_spec (decay_halflives (z_of_string (atom hl))) (zlist codes) vl (zlist times) (bmask_of m)))
+  | L [A "ema_adjusted"; vals; alpha] ->
+    let vl = List.map (fun x -> fl_of_string (atom x)) (lst vals) in
+    L (List.map (fun v -> A (string_of_fl v)) (ema_adjusted vl (qc_of_string (atom alpha))))
   | L (A op :: _) -> failwith ("unknown op " ^ op)
   | _ -> failwith "bad request"
 
